@@ -95,6 +95,9 @@ pub struct ProbeSignal<F> {
     pub end: Option<u64>,
     pub pulls: Pulls,
     pub make: fn(u32, u64) -> F,
+    /// "exhausted" is not "silent": when set, the probe keeps yielding `make(id, i)` after it has started
+    /// to report exhaustion — what `finite.add_amp(endless)` or `finite.offset_amp(x)` do
+    pub loud_after_end: bool,
 }
 
 impl<F: Frame> ProbeSignal<F> {
@@ -108,6 +111,7 @@ impl<F: Frame> ProbeSignal<F> {
                 end,
                 pulls: pulls.clone(),
                 make,
+                loud_after_end: false,
             },
             pulls,
         )
@@ -132,7 +136,7 @@ impl<F: Frame> Signal for ProbeSignal<F> {
     fn next(&mut self) -> F {
         self.pulls.bump();
         let f = match self.end {
-            Some(e) if self.idx >= e => F::EQUILIBRIUM,
+            Some(e) if self.idx >= e && !self.loud_after_end => F::EQUILIBRIUM,
             _ => (self.make)(self.id, self.idx),
         };
         self.idx += 1;
@@ -197,6 +201,20 @@ impl<T> Iterator for ProbeIter<T> {
         } else {
             self.nones.bump();
             None
+        }
+    }
+    /// Legal but, depending on the probe's id, loose: none / exact / lower bound under-reports and upper
+    /// bound over-reports / no lower bound and a generous upper one (as `filter`, `take_while`, `flat_map` give).
+    fn size_hint(&self) -> (usize, Option<usize>) {
+        if self.resume_after_none {
+            return (0, None);
+        }
+        let left = self.len.saturating_sub(self.i) as usize;
+        match self.id % 4 {
+            0 => (0, None),
+            1 => (left, Some(left)),
+            2 => (left / 2, Some(left * 3 + 7)),
+            _ => (0, Some(left + 100)),
         }
     }
 }
